@@ -150,4 +150,121 @@ Definition mon05 (inp obs : sx) : list Z :=
   let sts := run_states w (init_state (w_cfg w)) es in
   dedupZ (t_viol (fold_left (m05_step w) (combine (combine es sts) (sx_list obs)) m05_init)).
 
-Definition judge05 (inp obs : sx) : sx := judge_store mon05 inp obs.
+(** ---- the second half of the property on the model: "did this step write
+    object data into the store?" ----
+
+    The store model has no write counter; what it exposes is the allocation
+    cursor of every listed block (LocationBlobMap.Put advances it by the size
+    of the object) and the pending refresh copy of a parked reader.  A
+    refresh is the only way in which a Get or a FindMissing allocates, so
+    "some listed block's cursor is not what it was before the step" is
+    "space for a copy of the object was allocated in this step".
+
+    [alloc_grew s0 s1]: some block listed in [s1] has a non-zero cursor that
+    is not the cursor of the same block (same uid) in [s0]. *)
+Definition blk_sig_in (l : list block) (b : block) : bool :=
+  existsb (fun b0 => Nat.eqb (b_uid b0) (b_uid b) && N.eqb (b_cursor b0) (b_cursor b)) l.
+Definition alloc_grew (s0 s1 : state) : bool :=
+  negb (forallb (fun b => N.eqb (b_cursor b) 0%N || blk_sig_in (s_blocks s0) b) (s_blocks s1)).
+
+(** the parked reader [tid] carries a refresh copy that is still to be made *)
+Definition pending_refresh (s : state) (tid : nat) : bool :=
+  match thr_get (s_threads s) tid with
+  | Some (TGet _ _ _ (Some _) _) => true
+  | _ => false
+  end.
+
+(** [wrote w s0 e s1]: the step [e] from [s0] to [s1] copied object data into
+    the store.
+    - OGetOpen: space was allocated and the copy was made at once (foreground
+      copy: raw factory / in-memory blocks); with a validating factory the
+      copy runs in lock step with the consumer: the allocation leaves a
+      pending refresh and the bytes are written by the OGetConsume step;
+    - OGetConsume: the reader carried a pending refresh and the data read was
+      valid (no negative verdict in this step): the copy was written;
+    - OFindMissing: space was allocated (the copies are made inside the call).
+    A Get as a whole wrote iff its open or its consume step did. *)
+Definition wrote (w : world) (s0 : state) (e : op) (s1 : state) : bool :=
+  match e with
+  | OGetOpen tid _ _ => alloc_grew s0 s1 && negb (pending_refresh s1 tid)
+  | OGetConsume tid => pending_refresh s0 tid && Nat.eqb (s_negs s1) (s_negs s0)
+  | OFindMissing _ => alloc_grew s0 s1
+  | _ => false
+  end.
+
+(** the model's observation with the model's own write indication in the
+    last field (1 = wrote, 0 = did not), for every configuration *)
+Definition enc_obs05 (w : world) (e : op) (s0 s1 : state) (o : out) : sx :=
+  let c := w_cfg w in
+  let bd := negb (in_memory c) in
+  let tail := [of_nat (s_negs s1 - s_negs s0);
+               if bd then of_nat (live_blocks s1) else A (-1);
+               if bd then of_nat (open_readers s1) else A (-1);
+               if completes_put e o then A 1 else A (-1);
+               A (if wrote w s0 e s1 then 1 else 0)] in
+  match o with
+  | Done code bytes => L ([A 0; A code; of_Ns bytes] ++ tail)
+  | Parked => L ([A 1; A 0; L []] ++ tail)
+  | Missing code ds => L ([A 2; A code; of_nats ds] ++ tail)
+  | Bad => L [A 3]
+  end.
+
+Definition run05 (inp : sx) : sx :=
+  let w := dec_world inp in
+  let es := dec_ops inp in
+  L (map (fun '(e, (s0, s1, o)) => enc_obs05 w e s0 s1 o)
+         (combine es (run_states w (init_state (w_cfg w)) es))).
+
+(** Agreement on the write count (block-device configurations; the in-memory
+    allocator has no device): on every Get-open, Get-consume and FindMissing
+    step the implementation performed a device write iff the model [wrote].
+    Not compared:
+    - steps that touch an EMPTY object: a refresh of an empty object copies no
+      data (the model's cursor does not move) but the sector-granular
+      allocator of the implementation rewrites the image of the sector that
+      the zero-length allocation shares with its neighbours - a device write
+      without object data, for which the byte-granular model has no
+      counterpart;
+    - events the model answers [Bad] (not executed by the harness). *)
+Definition touches_empty (w : world) (s0 : state) (e : op) : bool :=
+  match e with
+  | OGetOpen _ o _ => N.eqb (osize w o) 0%N
+  | OGetConsume tid =>
+      match thr_get (s_threads s0) tid with
+      | Some (TGet o _ _ _ _) => N.eqb (osize w o) 0%N
+      | _ => false
+      end
+  | OFindMissing ds => existsb (fun d => N.eqb (osize w (fst d)) 0%N) ds
+  | _ => false
+  end.
+
+Definition writes_agree (w : world) (x : op * (state * state * out)) (o : sx) : bool :=
+  let '(e, (s0, s1, mo)) := x in
+  if in_memory (w_cfg w) then true else
+  match mo with
+  | Bad => true
+  | _ =>
+      match e with
+      | OGetOpen _ _ _ | OGetConsume _ | OFindMissing _ =>
+          touches_empty w s0 e || Bool.eqb (0 <? ob_writes o) (wrote w s0 e s1)
+      | _ => true
+      end
+  end.
+
+Fixpoint all2w (w : world) (xs : list (op * (state * state * out))) (os : list sx) : bool :=
+  match xs, os with
+  | x :: xs', o :: os' => writes_agree w x o && all2w w xs' os'
+  | _, _ => true       (* a length mismatch is reported by [all2b obs_agree] *)
+  end.
+
+(** C05's judge: the shared store agreement (fields 0-6) AND agreement of the
+    device write count with the model's [wrote]; the model output shown to the
+    driver carries the model's write indication in the last field. *)
+Definition judge05 (inp obs : sx) : sx :=
+  let w := dec_world inp in
+  let es := dec_ops inp in
+  let m := run05 inp in
+  let v := mon05 inp obs in
+  verdict (all2b obs_agree (sx_list m) (sx_list obs)
+           && all2w w (combine es (run_states w (init_state (w_cfg w)) es)) (sx_list obs))
+          (negb (match v with [] => true | _ => false end)) m (of_Zs v).
